@@ -634,6 +634,10 @@ def entry_points(dtype=np.float64, seed=0):
     # CPTensor.normalize() / TuckerTensor.normalize() are mutator methods: their docstrings say "the tensor modifies itself" /
     # "Transforms the tucker_tensor ...", i.e. the receiver is a parameter documented as updated in place
     simple("cp_normalize_method", lambda cp: cp.normalize(), lambda d: (cpt(d),), inplace=[0], skel=("KCpNormalizeMethod", [0]))
+    # GENUINE DEFECT (round 5, known finding cp_normalize_inplace_false): normalize(inplace=False) is documented to return a normalised
+    # copy; the code ignores the option.  The receiver is PROTECTED here; the skeleton models the code as it is (Props
+    # C15_cp_normalize_inplace_false_refuted / _partial), so Coq agrees with the observation and the Python predicate reports it.
+    simple("cp_normalize_method_inplace_false", lambda cp: cp.normalize(inplace=False), lambda d: (cpt(d),), skel=("KCpNormalizeMethod", [0]), ep="tensorly.cp_tensor.CPTensor.normalize")
     simple("cp_mode_dot_copy_matrix", lambda cp, Mx: cp_mode_dot(cp, Mx, 1, copy=True), lambda d: (cpt(d), d.mat))
     simple("cp_mode_dot_copy_matrix_tuple", lambda cp, Mx: cp_mode_dot(cp, Mx, 1, copy=True), lambda d: ((d.w, d.fs), d.mat))
     simple("cp_mode_dot_copy_vector", lambda cp, v: cp_mode_dot(cp, v, 1, copy=True), lambda d: (cpt(d), d.vec), skel=("KModeDotCopy", [0, 1]))
@@ -886,6 +890,70 @@ def entry_points(dtype=np.float64, seed=0):
     simple("tucker_mode_dot_fail_shape", lambda t, Mx: tucker_mode_dot(t, Mx, 0, copy=False), lambda d: (tkt(d), d.mat), inplace=[0], skel=TMI("KTuckerModeDotMatInplace"))
     simple("tucker_method_mode_dot_default", lambda t, v: t.mode_dot(v, 1), lambda d: (tkt(d), d.vec), inplace=[0])
     simple("index_update_small", lambda X, v: tl.index_update(X, tl.index[:, 1], v), lambda d: (d.rs.rand(3, 2).astype(dtype), d.rs.rand(3).astype(dtype) + 2), inplace=[0], skel=("KIndexUpdate", [0, 1]))
+    # ---------------------------------------------------------------- round 5: options the audit found never given a non-default value
+    SV = "symeig_svd"
+    rsv = lambda *a, **k: tl.tenalg.svd.randomized_svd(*a, random_state=sd, **k) if False else None
+    simple("options_svd_cp_family", lambda X, m: (parafac(X, R, n_iter_max=2, init="svd", svd=SV), non_negative_parafac(X, R, n_iter_max=2, svd=SV), non_negative_parafac_hals(X, R, n_iter_max=2, svd=SV),
+                                                 constrained_parafac(X, R, n_iter_max=2, init="svd", svd=SV, non_negative=True, tol_inner=1e-3, tol_outer=1e-5),
+                                                 randomised_parafac(X, R, n_samples=8, n_iter_max=2, init="svd", svd=SV, random_state=sd, callback=lambda *a: False),
+                                                 initialize_cp(X, R, init="svd", svd=SV, mask=m, svd_mask_repeats=2), initialize_constrained_parafac(X, R, init="svd", svd=SV, non_negative=True)),
+           lambda d: (d.X, d.mask))
+    simple("options_svd_tucker_family", lambda X, m: (tucker(X, [2, 2, 2], n_iter_max=2, svd=SV, return_errors=True), partial_tucker(X, [2, 2], modes=[0, 2], n_iter_max=2, svd=SV, mask=m, svd_mask_repeats=2),
+                                                     non_negative_tucker(X, [2, 2, 2], n_iter_max=2), non_negative_tucker_hals(X, [2, 2, 2], n_iter_max=1, svd=SV, return_errors=True),
+                                                     initialize_tucker(X, [2, 2, 2], [0, 1, 2], sd, init="svd", svd=SV, mask=m, svd_mask_repeats=2)),
+           lambda d: (d.X, d.mask))
+    simple("options_svd_other_decompositions", lambda X, Y, sl: (tensor_train(X, [1, 2, 2, 1], svd=SV), tensor_train_matrix(Y, [1, 2, 1], svd=SV), tensor_ring(X, [2, 2, 2, 2], svd=SV),
+                                                                parafac2(sl, R, n_iter_max=2, init="svd", svd=SV), initialize_decomposition(sl, R, init="svd", svd=SV),
+                                                                svd_compress_tensor_slices(sl, max_rank=3, svd=SV)),
+           lambda d: (d.X, d.rs.rand(2, 3, 2, 3).astype(dtype), d.slices))
+    simple("options_classes_rest", lambda X, i, Y: (CP(R, n_iter_max=2, init=i, l2_reg=0.1, orthogonalise=True, svd=SV, svd_mask_repeats=2).fit_transform(X), CP(R, n_iter_max=8, init=i, linesearch=True, tol=1e-12).fit_transform(X),
+                                                   RandomizedCP(R, 8, n_iter_max=3, init=i, tol=0, max_stagnation=1, random_state=sd, verbose=0).fit_transform(X), randomised_parafac(X, R, n_samples=8, n_iter_max=3, init=i, tol=0, max_stagnation=1, random_state=sd),
+                                                   CP_NN(R, n_iter_max=2, init=i, cvg_criterion="rec_error", tol=0).fit_transform(X), CP_NN_HALS(R, n_iter_max=2, init=i, normalize_factors=True).fit_transform(X), non_negative_parafac(X, R, n_iter_max=2, init=i, tol=0),
+                                                   Parafac2(R, n_iter_max=2, n_iter_parafac=2).fit_transform([X[0], X[1], X[2]]), Tucker_NN_HALS([2, 2, 2], n_iter_max=1, algorithm="active_set", tol=0).fit_transform(X),
+                                                   RandomizedCP(R, 8, n_iter_max=2, svd=SV, random_state=sd, verbose=0, callback=lambda *a: False).fit_transform(X),
+                                                   CP_NN(R, n_iter_max=2, normalize_factors=True, svd=SV).fit_transform(X), CP_NN_HALS(R, n_iter_max=1, svd=SV).fit_transform(X),
+                                                   Parafac2(R, n_iter_max=2, init="svd", svd=SV).fit_transform([X[0], X[1], X[2]]),
+                                                   TensorRingALS([2, 2, 2, 2], n_iter_max=2, random_state=sd, tol=0, ls_solve="normal_eq", callback=lambda *a: False).fit_transform(X),
+                                                   TensorRingALSSampled([2, 2, 2, 2], 10, n_iter_max=2, random_state=sd, tol=0, uniform_sampling=True, randomized_error=True, callback=lambda *a: False).fit_transform(X),
+                                                   TensorRing([2, 1, 2, 2], mode=1, svd=SV).fit_transform(X), TensorTrain([1, 2, 2, 1], svd=SV).fit_transform(X), TensorTrainMatrix([1, 2, 1], svd=SV).fit_transform(Y),
+                                                   Tucker([2, 2, 2], n_iter_max=2, svd=SV, return_errors=True).fit_transform(X), Tucker_NN([2, 2, 2], n_iter_max=2, svd=SV, normalize_factors=True, tol=0).fit_transform(X),
+                                                   Tucker_NN_HALS([2, 2, 2], n_iter_max=1, svd=SV, return_errors=True).fit_transform(X)),
+           lambda d: (d.X, (d.w, d.fs), d.rs.rand(2, 3, 2, 3).astype(dtype)))
+    for cname, kw in [("l2", dict(l2_reg=0.1)), ("l2sq", dict(l2_square_reg=0.1)), ("unimodal", dict(unimodality=True)), ("normalize", dict(normalize=True)), ("simplex", dict(simplex=1.0)),
+                      ("normsparse", dict(normalized_sparsity=2)), ("softsparse", dict(soft_sparsity=1.0)), ("smooth", dict(smoothness=0.1)), ("monotone", dict(monotonicity=True)),
+                      ("hardsparse", dict(hard_sparsity=3))]:
+        simple("ConstrainedCP_class_init_" + cname, lambda X, i, kw=kw: ConstrainedCP(R, n_iter_max=2, n_iter_max_inner=2, init=i, svd=SV, tol_inner=1e-3, tol_outer=1e-6, cvg_criterion="rec_error", return_errors=True, **kw).fit_transform(X),
+               lambda d: (d.X, (d.w1, d.fs)))
+    simple("options_tr_als_functions", lambda X: (tensor_ring_als(X, [2, 2, 2, 2], n_iter_max=2, random_state=sd, tol=0, ls_solve="normal_eq", callback=lambda *a: False),
+                                                 tensor_ring_als_sampled(X, [2, 2, 2, 2], 10, n_iter_max=2, random_state=sd, tol=0, uniform_sampling=True, randomized_error=True, callback=lambda *a: False)), lambda d: (d.X,))
+    simple("options_cmtf_user_init", lambda X, Mx, i: (coupled_matrix_tensor_3d_factorization(X, Mx, R, init=i, n_iter_max=2, tol=0, normalize_factors=True)), lambda d: (d.X, d.rs.rand(4, 3).astype(dtype), (d.w1, d.fs)))
+    simple("options_robust_pca", lambda X, m: robust_pca(X, mask=m, n_iter_max=3, tol=1e-3, mu_init=1e-3, mu_max=1e3, learning_rate=1.5, return_errors=True, verbose=0), lambda d: (d.X, d.mask))
+    simple("options_factorized_methods", lambda cp, t, v, Mx: (cp.mode_dot(v, 1, keep_dim=True, copy=True), cp.mode_dot(Mx, 1, copy=True), t.mode_dot(v, 1, keep_dim=True, copy=True),
+                                                              tucker_to_tensor(t, modes=[0, 2]) if False else tucker_to_tensor((t.core, [t.factors[0], t.factors[2]]), modes=[0, 2]),
+                                                              tucker_to_unfolded(t, 1, skip_factor=0, transpose_factors=False) if False else tucker_to_unfolded(t, 1, skip_factor=0),
+                                                              tucker_to_vec(t, skip_factor=2), tucker_to_unfolded((t.core, [tl.transpose(f) for f in t.factors]), 1, transpose_factors=True), tucker_to_vec((t.core, [tl.transpose(f) for f in t.factors]), transpose_factors=True)), lambda d: (cpt(d), tkt(d), d.vec, d.mat))
+    simple("options_cp_method_mode_dot_inplace", lambda cp, v: cp.mode_dot(v, 1, copy=False), lambda d: (cpt(d), d.vec), inplace=[0])
+    simple("options_base_and_conversions", lambda X, M2, f, p: (tl.partial_unfold(X, 0, skip_begin=1, skip_end=1), tl.partial_tensor_to_vec(X, skip_begin=1, skip_end=1), partial_fold(M2, 0, (4, 3, 5), skip_begin=1, skip_end=1) if False else partial_fold(tl.partial_unfold(X, 0, skip_begin=1, skip_end=1), 0, (4, 3, 5), skip_begin=1, skip_end=1),
+                                                               partial_vec_to_tensor(tl.partial_tensor_to_vec(X, skip_begin=1, skip_end=1), (4, 3, 5), skip_begin=1, skip_end=1),
+                                                               tl.partial_unfold(X, 0, skip_begin=2), tl.partial_tensor_to_vec(X, skip_begin=2), partial_fold(tl.partial_unfold(X, 0, skip_begin=2), 0, (4, 3, 5), skip_begin=2),
+                                                               partial_vec_to_tensor(tl.partial_tensor_to_vec(X, skip_begin=2), (4, 3, 5), skip_begin=2),
+                                                               pad_tt_rank(f, n_padding=2, pad_boundaries=True), parafac2_to_slices(p, validate=False)),
+           lambda d: (d.X, d.rs.rand(4, 15).astype(dtype), ttf(d), p2t(d)))
+    simple("options_metrics", lambda a, b, A2, B2, fs, fs2: (MSE(A2, B2, axis=0), RMSE(A2, B2, axis=1), correlation(A2, B2, axis=0), reflective_correlation_coefficient(A2, B2, axis=0),
+                                                            congruence_coefficient(fs[0], fs2[0], absolute_value=False), correlation_index(fs, fs2, tol=1e-3)),
+           lambda d: (d.y, d.y[::-1] + 0.1, d.Y2, d.Y2[::-1] + 0.1, d.fs, [f[:, ::-1] * 2 for f in d.fs]))
+    simple("options_random_and_ranks", lambda s, r: (tlr.random_cp(tuple(s), 2, full=True, random_state=sd), tlr.random_cp(tuple(s), 2, orthogonal=True, random_state=sd), tlr.random_tucker(s, r, full=True, random_state=sd),
+                                                    tlr.random_tucker(s, r, orthogonal=True, non_negative=True, random_state=sd), tlr.random_tt(s, [1, 2, 2, 1], full=True, random_state=sd), tlr.random_tr(s, [2, 2, 2, 2], full=True, random_state=sd),
+                                                    tlr.random_parafac2([(4, 3), (5, 3)], 2, full=True, random_state=sd), tlr.random_parafac2([(4, 3), (5, 3)], 2, normalise_factors=True, random_state=sd),
+                                                    tl.validate_cp_rank(s, 0.5, rounding="floor"), tl.validate_tucker_rank(s, 0.5, rounding="ceil"), tl.validate_tt_rank(s, 0.5, rounding="floor", constant_rank=True), tl.validate_tr_rank(s, 0.5, rounding="ceil")),
+           lambda d: ([3, 4, 2], [2, 2, 2]))
+    simple("options_solver_tolerances", lambda a, b, x: (hals_nnls(a, b, n_iter_max=5, tol=1e-2), fista(a, b, n_iter_max=5, tol=1e-2, epsilon=1e-6), active_set_nnls(a[:, 0], b, x, tol=1e-3)), lambda d: (d.UtM, d.UtU, None))
+    simple("options_tenalg_rest", lambda X, Yt, tf, M: (tenalg.inner(X, Yt, n_modes=2), truncated_svd(M, 2), tl.tenalg.svd.randomized_svd(M, 2, n_oversamples=3, n_iter=1, random_state=sd), randomized_range_finder(M, 2, n_iter=1, random_state=sd)),
+           lambda d: (d.X, d.rs.rand(3, 5, 2).astype(dtype), d.tf, d.M))
+    simple("options_einsum_multi_mode_dot", _einsum(lambda X, tf, mo: tenalg.multi_mode_dot(X, tf, modes=mo, skip=1, transpose=True)), lambda d: (d.X, [d.tf[2], d.tf[0]], [2, 0]))
+    simple("options_regressor_tolerances", lambda X, y, Y: (CPRegressor(2, tol=1e-3, random_state=sd, verbose=0, n_iter_max=3).fit(X, y).predict(X), TuckerRegressor([2, 2], tol=1e-3, random_state=sd, verbose=0, n_iter_max=3).fit(X, y).predict(X),
+                                                           CP_PLSR(2, n_iter_max=5, tol=1e-3, random_state=sd).fit(X, Y).predict(X), tensor_train_cross(X, [1, 2, 2, 1], tol=1e-2, n_iter_max=3, random_state=sd)),
+           lambda d: (d.X, d.y, d.Y2))
     simple("index_update_fail_shape", lambda X, v: tl.index_update(X, tl.index[:, 1], v), lambda d: (d.rs.rand(3, 2).astype(dtype), d.rs.rand(5).astype(dtype) + 2), inplace=[0], skel=("KIndexUpdate", [0, 1]))
     return E
 
@@ -2125,6 +2193,8 @@ def tl_dir():
     return _TL_DIR[0]
 
 
+SURFACE_DEFAULTS = {}    # code object -> {parameter: default} of the public callables (parameters WITH a default = the options)
+PARAMS_VARIED = set()    # (qualified name, parameter) seen with a non-default value at the entry of the callable
 SURFACE = {}         # code object -> qualified name of a public callable of the audited packages (filled by public_surface)
 SURFACE_HIT = {}     # qualified name -> first configuration that executed it
 CALL_COUNTS = {}     # (configuration, dtype, data seed) -> number of internal function calls of an uninterrupted "fresh" run
@@ -2144,7 +2214,16 @@ class Tracer:
             return None
         self.n += 1
         if self.label is not None and code in SURFACE:
-            SURFACE_HIT.setdefault(SURFACE[code], self.label)
+            q = SURFACE[code]
+            SURFACE_HIT.setdefault(q, self.label)
+            dfl = SURFACE_DEFAULTS.get(code)
+            if dfl:
+                loc = frame.f_locals
+                for p_, d_ in dfl.items():
+                    if (q, p_) not in PARAMS_VARIED and p_ in loc:
+                        v_ = loc[p_]
+                        if not (v_ is d_ or (type(v_) in (int, float, str, bool, tuple) and type(d_) is type(v_) and v_ == d_)):
+                            PARAMS_VARIED.add((q, p_))
         if self.k is not None and self.n == self.k:
             self.fired = f"{os.path.basename(code.co_filename)}:{code.co_name}"
             sys.settrace(None)
@@ -2163,7 +2242,7 @@ def public_surface():
     """code object -> name for every public function / public method of a public class defined in the audited packages
     (as imported from VERIF_REPO now); modules that cannot be imported (optional dependencies) are skipped and listed"""
     import importlib, inspect, pkgutil
-    out, failed, mods = {}, [], []
+    out, failed, mods, funcs_ = {}, [], [], []
     for p in SURFACE_PACKAGES:
         try:
             m = importlib.import_module(p)
@@ -2184,12 +2263,22 @@ def public_surface():
                 continue
             if inspect.isfunction(o) and o.__module__ == m.__name__:
                 out[o.__code__] = f"{m.__name__}.{n}"
+                funcs_.append(o)
             elif inspect.isclass(o) and o.__module__ == m.__name__:
                 for mn, mo in list(vars(o).items()):
                     f = mo.__func__ if isinstance(mo, (staticmethod, classmethod)) else (mo.fget if isinstance(mo, property) else mo)
                     if inspect.isfunction(f) and (not mn.startswith("_") or mn == "__init__"):
                         out[f.__code__] = f"{m.__name__}.{n}.{mn}"
+                        funcs_.append(f)
     out = {c: q for c, q in out.items() if not any(x in q for x in SURFACE_EXCLUDED)}
+    SURFACE_DEFAULTS.clear()
+    for f in funcs_:
+        if f.__code__ in out:
+            try:
+                SURFACE_DEFAULTS[f.__code__] = {k: v.default for k, v in inspect.signature(f).parameters.items()
+                                                if v.default is not inspect.Parameter.empty and k not in ("verbose", "random_state")}
+            except Exception:
+                pass
     return out, failed
 
 
@@ -2225,7 +2314,7 @@ def run_config(name, variant, dtype, seed):
         heap.views = [(oid, path, a, arr_meta(a)) for oid, path, a, meta in heap.views]
     C.reset_backends()
     buf = io.StringIO()
-    tracer = Tracer(inject, name) if (inject is not None or (variant == "fresh" and SURFACE)) else None
+    tracer = Tracer(inject, name) if (inject is not None or (SURFACE and (variant == "fresh" or name in HEAVY or name.startswith("fuzz:")))) else None
     with contextlib.redirect_stdout(buf), contextlib.redirect_stderr(buf):
         if tracer is None:
             out = C.call_impl(spec["fn"], *args, timeout=60)
@@ -2349,7 +2438,13 @@ def prw_caller_lists_rewritten(f):
     return f["inputs"].get("config", "").startswith("process_regularization_weights") and "arg" in f["message"]
 
 
-CLASSIFIERS = {"prw_caller_lists_rewritten": prw_caller_lists_rewritten}
+def cp_normalize_inplace_false_mutates_receiver(f):
+    """known finding: CPTensor.normalize(inplace=False) assigns self.weights / self.factors although a copy is documented"""
+    return f["inputs"].get("config", "") == "cp_normalize_method_inplace_false" and "arg0" in f["message"]
+
+
+CLASSIFIERS = {"prw_caller_lists_rewritten": prw_caller_lists_rewritten,
+               "cp_normalize_inplace_false_mutates_receiver": cp_normalize_inplace_false_mutates_receiver}
 
 
 def run(chk):
@@ -2370,7 +2465,7 @@ def run(chk):
     t_impl = time.time()
     try:        # surface audit: which public callables of the anchored packages does the table execute (measured on every run)
         surf, surf_failed = public_surface()
-        SURFACE.clear(); SURFACE.update(surf); SURFACE_HIT.clear(); CALL_COUNTS.clear()
+        SURFACE.clear(); SURFACE.update(surf); SURFACE_HIT.clear(); CALL_COUNTS.clear(); PARAMS_VARIED.clear()
     except Exception as e:
         surf_failed = [f"{type(e).__name__}: {e}"[:200]]
     todo = list(plan(chk.tier, rng))
@@ -2418,6 +2513,13 @@ def run(chk):
                 r2 = run_config(name, v2, d2, s2)
                 if r2 is not None and predicate(r2):
                     found = (v2, d2, s2, r2); break
+            if not found:       # ... or an interruption point at which the temporary modification is still in place
+                total = CALL_COUNTS.get((name, dtype, seed)) or CALL_COUNTS.get((name, "float64", 0)) or 0
+                ks = list(range(1, total + 1)) if total <= 60 else sorted(random.Random(total).sample(range(1, total + 1), 60))
+                for k in ks:
+                    r2 = run_config(name, f"fresh!{k}", dtype, seed)
+                    if r2 is not None and predicate(r2):
+                        found = (f"fresh!{k}", dtype, seed, r2); break
             if found:
                 v2, d2, s2, r2 = found
                 chk.finding(r2["spec"].get("ep") or f"tensorly:{name}", {"config": name, "variant": v2, "dtype": d2, "data_seed": s2,
@@ -2437,6 +2539,11 @@ def run(chk):
         chk.cov["public_surface"] = {"packages": SURFACE_PACKAGES, "public_callables": len(allq), "executed_by_the_table": len(allq) - len(missing),
                                      "never_executed": missing, "modules_not_importable": surf_failed,
                                      "excluded_infrastructure": list(SURFACE_EXCLUDED)}
+        allp = sorted((SURFACE[c], p_) for c, d_ in SURFACE_DEFAULTS.items() if c in SURFACE for p_ in d_)
+        unvaried = [f"{q}({p_}=)" for q, p_ in allp if (q, p_) not in PARAMS_VARIED]
+        chk.cov["public_surface"]["options_total"] = len(allp)
+        chk.cov["public_surface"]["options_never_given_a_non_default_value"] = unvaried
+        chk.notes.append(f"public options (parameters with a default, verbose / random_state aside): {len(allp) - len(unvaried)} of {len(allp)} seen with a non-default value")
         chk.notes.append(f"public surface: {len(allq) - len(missing)} of {len(allq)} public callables executed by the table" +
                          (f"; NOT executed: {', '.join(missing[:12])}" if missing else ""))
     builder.join()
